@@ -1,5 +1,6 @@
 import NucleoVerif.Model.Matcher
 import NucleoVerif.Spec.Matcher
+import NucleoVerif.Props.C16
 /-! # C05 — substring, prefix, postfix and exact matching decide the documented relations
 
 Status: the specification's occurrence list is characterised (`occAux_mem`), the trimming
@@ -108,5 +109,412 @@ theorem trailingWs_eq (r : Rep) (h : List Nat) :
   rw [findIdx_eq, hw]
   simp only [Bool.not_not, List.all_reverse]
   split <;> simp_all
+
+
+/-! ## prefix, postfix and exact matching: the decisions -/
+
+def wsList : List Nat := [9, 10, 11, 12, 13, 32, 0x85, 0xA0, 0x1680, 0x2000, 0x2001, 0x2002, 0x2003, 0x2004, 0x2005, 0x2006, 0x2007,
+  0x2008, 0x2009, 0x200A, 0x2028, 0x2029, 0x202F, 0x205F, 0x3000]
+
+theorem isWs_mem (c : Nat) (h : isWs c = true) : c ∈ wsList := by
+  unfold isWs at h
+  simp only [Bool.or_eq_true, Bool.and_eq_true, decide_eq_true_eq] at h
+  unfold wsList
+  simp only [List.mem_cons, List.mem_nil_iff, or_false]
+  omega
+
+set_option maxRecDepth 100000 in
+theorem ws_table : wsList.all (fun c => isWs (toLower c) && isWs (normalizeLatin c) && isWs (toLower (normalizeLatin c))) = true := by
+  decide +kernel
+
+
+/-- a whitespace character of the haystack is still whitespace after normalization (so it can not equal a
+    non-whitespace needle character) -/
+theorem ws_norm (cfg : Cfg) (r : Rep) (c : Nat) (h : wsRep r c = true) : isWs (norm cfg r c) = true := by
+  cases r with
+  | ascii =>
+    simp only [wsRep, isAsciiWs, Bool.or_eq_true, decide_eq_true_eq] at h
+    have hn : normAscii cfg c = c := by unfold normAscii; split <;> omega
+    show isWs (normAscii cfg c) = true
+    rw [hn]; unfold isWs
+    simp only [Bool.or_eq_true, Bool.and_eq_true, decide_eq_true_eq]
+    omega
+  | unicode =>
+    have hm := isWs_mem c h
+    have ht := ws_table
+    rw [List.all_eq_true] at ht
+    have := ht c hm
+    simp only [Bool.and_eq_true] at this
+    show isWs (normChar cfg c) = true
+    unfold normChar
+    by_cases hz : cfg.normalize = true <;> by_cases hi : cfg.ignoreCase = true <;> simp only [hz, hi, if_true, if_false, Bool.false_eq_true]
+    · exact this.2
+    · exact this.1.2
+    · exact this.1.1
+    · exact h
+
+/-- the window comparison of `exact_match_impl`, for a needle that is already normalized, is equality of the
+    normalized haystack window with the needle — in every representation pair except ASCII haystack × code-point
+    needle (known finding K1) -/
+theorem exactImpl_window (cfg : Cfg) (ext : Ext) (hrep nrep : Rep) (h n : List Nat) (start end_ : Nat)
+    (hk1 : ¬ (hrep = .ascii ∧ nrep = .unicode)) (hn : n.map (norm cfg nrep) = n) :
+    (exactImpl cfg ext hrep nrep h n start end_).isSome =
+      (decide (n.length = end_ - start) && (((normHay cfg hrep h).drop start).take (end_ - start) == n)) := by
+  rw [exactImpl_isSome]
+  congr 1
+  unfold normHay
+  rw [← List.map_drop, ← List.map_take]
+  cases hrep <;> cases nrep
+  · -- ascii / ascii
+    simp only
+    by_cases hi : cfg.ignoreCase = true
+    · simp only [hi, if_true]
+      have : n.map (normAscii cfg) = n := hn
+      rw [this]; rfl
+    · simp only [hi, Bool.false_eq_true, if_false]
+      have hid : ∀ (l : List Nat), l.map (norm cfg .ascii) = l := by
+        intro l
+        induction l with
+        | nil => rfl
+        | cons a t ih => simp only [List.map_cons, ih]; congr 1; simp [norm, normAscii, hi]
+      rw [hid]
+  · exact absurd ⟨rfl, rfl⟩ hk1
+  · simp only
+    have : n.map (normAscii cfg) = n := hn
+    rw [this]; rfl
+  · simp only
+    have : n.map (normChar cfg) = n := hn
+    rw [this]; rfl
+
+theorem takeWhile_length_eq_iff_all (p : Nat → Bool) : ∀ (l : List Nat), l.all p = true → (l.takeWhile p).length = l.length := by
+  intro l
+  induction l with
+  | nil => intro _; rfl
+  | cons a t ih =>
+    intro h
+    simp only [List.all_cons, Bool.and_eq_true] at h
+    simp [h.1, ih h.2]
+
+theorem lead_le (r : Rep) (h : List Nat) : lead r h ≤ h.length := by
+  unfold lead; exact (List.takeWhile_sublist _).length_le
+
+/-- **prefix matching** succeeds exactly when the needle equals the normalized haystack text at the start, where
+    leading haystack whitespace is skipped unless the needle itself starts with whitespace -/
+theorem C05_prefix (cfg : Cfg) (ext : Ext) (hrep nrep : Rep) (h : List Nat) (n0 : Nat) (ns : List Nat)
+    (hk1 : ¬ (hrep = .ascii ∧ nrep = .unicode)) (hn : (n0 :: ns).map (norm cfg nrep) = n0 :: ns) :
+    (prefixMatch cfg ext hrep nrep h (n0 :: ns)).isSome =
+      (decide ((if isWs n0 then 0 else lead hrep h) + (n0 :: ns).length ≤ h.length) &&
+        (((normHay cfg hrep h).drop (if isWs n0 then 0 else lead hrep h)).take (n0 :: ns).length == n0 :: ns)) := by
+  have hw : wsOf hrep = wsRep hrep := by cases hrep <;> rfl
+  unfold prefixMatch
+  simp only
+  generalize hL : (n0 :: ns).length = L
+  have hLpos : 0 < L := by rw [← hL]; simp
+  by_cases hws : isWs n0 = true
+  · -- needle starts with whitespace: nothing is skipped
+    simp only [hws, Bool.not_true, Bool.false_eq_true, if_false, if_true, Nat.sub_zero, Nat.zero_add, Nat.add_zero]
+    by_cases hl : h.length < L
+    · simp only [hl, if_true, Option.isSome_none]
+      have : ¬ (L ≤ h.length) := by omega
+      simp [this]
+    · simp only [hl, if_false]
+      rw [exactImpl_window cfg ext hrep nrep h _ _ _ hk1 hn]
+      have : L ≤ h.length := by omega
+      simp [this, hL]
+  · have hws' : isWs n0 = false := by simpa using hws
+    simp only [hws', Bool.not_false, if_true, Bool.false_eq_true, if_false]
+    rw [leadingWs_eq]
+    by_cases hall : h.all (wsRep hrep) = true
+    · -- the haystack is all whitespace: the code skips nothing, but the first character can not match
+      simp only [hall, if_true, Nat.sub_zero, Nat.add_zero]
+      have hlead : lead hrep h = h.length := by
+        unfold lead; rw [hw]; exact takeWhile_length_eq_iff_all _ h hall
+      have hfalse : ¬ (lead hrep h + L ≤ h.length) := by rw [hlead]; omega
+      simp only [hfalse, decide_false, Bool.false_and]
+      by_cases hl : h.length < L
+      · simp [hl]
+      · simp only [hl, if_false]
+        rw [exactImpl_window cfg ext hrep nrep h _ _ _ hk1 hn]
+        simp only [Nat.sub_zero, hL, decide_true, Bool.true_and, List.drop_zero]
+        -- first character of the window is whitespace after normalization, the needle's is not
+        cases h with
+        | nil => simp at hl; omega
+        | cons c cs =>
+          simp only [List.all_cons, Bool.and_eq_true] at hall
+          have := ws_norm cfg hrep c hall.1
+          obtain ⟨L', rfl⟩ : ∃ L', L = L' + 1 := ⟨L - 1, by omega⟩
+          simp only [normHay, List.map_cons, List.take_succ_cons]
+          cases hb : (norm cfg hrep c :: List.take L' (List.map (norm cfg hrep) cs) == n0 :: ns) with
+          | false => rfl
+          | true =>
+            rw [beq_iff_eq] at hb
+            simp only [List.cons.injEq] at hb
+            rw [hb.1] at this; rw [this] at hws'; cases hws'
+    · simp only [hall, Bool.false_eq_true, if_false]
+      have hle := lead_le hrep h
+      by_cases hl : h.length - lead hrep h < L
+      · simp only [hl, if_true, Option.isSome_none]
+        have : ¬ (lead hrep h + L ≤ h.length) := by omega
+        simp [this]
+      · simp only [hl, if_false]
+        rw [exactImpl_window cfg ext hrep nrep h _ _ _ hk1 hn]
+        have : lead hrep h + L ≤ h.length := by omega
+        have e : L + lead hrep h - lead hrep h = L := by omega
+        simp [this, hL, e]
+
+
+theorem trail_le (r : Rep) (h : List Nat) : trail r h ≤ h.length := by
+  unfold trail
+  have := (List.takeWhile_sublist (l := h.reverse) (wsOf r)).length_le
+  simpa using this
+
+theorem takeWhile_length_lt_of_not_all (p : Nat → Bool) : ∀ (l : List Nat), l.all p = false → (l.takeWhile p).length < l.length := by
+  intro l
+  induction l with
+  | nil => intro h; simp at h
+  | cons a t ih =>
+    intro h
+    simp only [List.takeWhile_cons]
+    by_cases ha : p a = true
+    · simp only [ha, if_true, List.length_cons]
+      have : t.all p = false := by simpa [List.all_cons, ha] using h
+      have := ih this; omega
+    · simp [ha]
+
+/-- a haystack that is not all whitespace has a non-whitespace character between its leading and trailing blanks -/
+theorem lead_add_trail_lt (p : Nat → Bool) : ∀ (l : List Nat), l.all p = false →
+    (l.takeWhile p).length + (l.reverse.takeWhile p).length < l.length := by
+  intro l
+  induction l with
+  | nil => intro h; simp at h
+  | cons a t ih =>
+    intro h
+    simp only [List.reverse_cons, List.takeWhile_cons, List.length_cons]
+    by_cases ha : p a = true
+    · have ht : t.all p = false := by simpa [List.all_cons, ha] using h
+      have hr : t.reverse.all p = false := by simpa using ht
+      have hlt := takeWhile_length_lt_of_not_all p t.reverse hr
+      rw [List.takeWhile_append]
+      have hne : ¬ ((t.reverse.takeWhile p).length = t.reverse.length) := by omega
+      simp only [hne, if_false, ha, if_true, List.length_cons]
+      have := ih ht
+      omega
+    · simp only [ha, Bool.false_eq_true, if_false, List.length_nil, Nat.zero_add]
+      rw [List.takeWhile_append]
+      split
+      · simp only [List.length_append, List.length_reverse, List.takeWhile_cons, ha, Bool.false_eq_true, if_false, List.length_nil]
+        omega
+      · have := (List.takeWhile_sublist (l := t.reverse) p).length_le
+        simp only [List.length_reverse] at this
+        omega
+
+/-- if the last normalized haystack character of the window is whitespace and the needle's last character is not,
+    the comparison fails -/
+theorem ne_of_last_ws (w n : List Nat) (hw : ∃ c, w.getLast? = some c ∧ isWs c = true)
+    (hn : ∃ c, n.getLast? = some c ∧ isWs c = false) : (w == n) = false := by
+  cases hb : (w == n) with
+  | false => rfl
+  | true =>
+    rw [beq_iff_eq] at hb
+    obtain ⟨c, hc1, hc2⟩ := hw
+    obtain ⟨d, hd1, hd2⟩ := hn
+    rw [hb, hd1] at hc1
+    injection hc1 with e
+    rw [e, hc2] at hd2; cases hd2
+
+
+theorem trail_eq_length_of_all (r : Rep) (h : List Nat) (hall : h.all (wsRep r) = true) : trail r h = h.length := by
+  have hw : wsOf r = wsRep r := by cases r <;> rfl
+  unfold trail; rw [hw]
+  have := takeWhile_length_eq_iff_all (wsRep r) h.reverse (by simpa using hall)
+  simpa using this
+
+/-- the last character of an all-whitespace haystack suffix is whitespace after normalization -/
+theorem last_ws_of_all (cfg : Cfg) (r : Rep) (h : List Nat) (hall : h.all (wsRep r) = true) (k : Nat) (hk : k < h.length) :
+    ∃ c, ((normHay cfg r h).drop k).getLast? = some c ∧ isWs c = true := by
+  have hne : h ≠ [] := by intro e; subst e; simp at hk
+  have hl := List.getLast?_eq_some_getLast hne
+  refine ⟨norm cfg r (h.getLast hne), ?_, ?_⟩
+  · unfold normHay
+    rw [List.getLast?_drop]
+    simp only [List.length_map]
+    have : ¬ (h.length ≤ k) := by omega
+    simp only [this, if_false, List.getLast?_map, hl, Option.map_some]
+  · apply ws_norm
+    rw [List.all_eq_true] at hall
+    exact hall _ (List.getLast_mem hne)
+
+/-- **postfix matching** succeeds exactly when the needle equals the normalized haystack text at the end, where
+    trailing haystack whitespace is skipped unless the needle itself ends with whitespace -/
+theorem C05_postfix (cfg : Cfg) (ext : Ext) (hrep nrep : Rep) (h : List Nat) (n0 : Nat) (ns : List Nat)
+    (hk1 : ¬ (hrep = .ascii ∧ nrep = .unicode)) (hn : (n0 :: ns).map (norm cfg nrep) = n0 :: ns) :
+    (postfixMatch cfg ext hrep nrep h (n0 :: ns)).isSome =
+      (decide ((if isWs ((n0 :: ns).getLast?.getD n0) then 0 else trail hrep h) + (n0 :: ns).length ≤ h.length) &&
+        (((normHay cfg hrep h).drop (h.length - (if isWs ((n0 :: ns).getLast?.getD n0) then 0 else trail hrep h) - (n0 :: ns).length)).take
+          (n0 :: ns).length == n0 :: ns)) := by
+  unfold postfixMatch
+  simp only
+  have hlastSome : (n0 :: ns).getLast? = some ((n0 :: ns).getLast?.getD n0) := by
+    rw [List.getLast?_eq_some_getLast (by simp)]; rfl
+  generalize hlast : (n0 :: ns).getLast?.getD n0 = last at *
+  generalize hL : (n0 :: ns).length = L
+  have hLpos : 0 < L := by rw [← hL]; simp
+  by_cases hws : isWs last = true
+  · simp only [hws, Bool.not_true, Bool.false_eq_true, if_false, if_true, Nat.sub_zero, Nat.zero_add]
+    by_cases hl : h.length < L
+    · simp only [hl, if_true, Option.isSome_none]
+      have : ¬ (L ≤ h.length) := by omega
+      simp [this]
+    · simp only [hl, if_false]
+      rw [exactImpl_window cfg ext hrep nrep h _ _ _ hk1 hn]
+      have : L ≤ h.length := by omega
+      have e : h.length - (h.length - L) = L := by omega
+      simp [this, hL, e]
+  · have hws' : isWs last = false := by simpa using hws
+    simp only [hws', Bool.not_false, if_true, Bool.false_eq_true, if_false]
+    rw [trailingWs_eq]
+    by_cases hall : h.all (wsRep hrep) = true
+    · simp only [hall, if_true, Nat.sub_zero]
+      have htr := trail_eq_length_of_all hrep h hall
+      have hfalse : ¬ (trail hrep h + L ≤ h.length) := by rw [htr]; omega
+      simp only [hfalse, decide_false, Bool.false_and]
+      by_cases hl : h.length < L
+      · simp [hl]
+      · simp only [hl, if_false]
+        rw [exactImpl_window cfg ext hrep nrep h _ _ _ hk1 hn]
+        have e : h.length - (h.length - L) = L := by omega
+        simp only [e, hL, decide_true, Bool.true_and]
+        -- the window is the last L characters; its last character is whitespace, the needle's is not
+        have hwin : ((normHay cfg hrep h).drop (h.length - L)).take L = (normHay cfg hrep h).drop (h.length - L) := by
+          apply List.take_of_length_le
+          simp [normHay]; omega
+        rw [hwin]
+        exact ne_of_last_ws _ _ (last_ws_of_all cfg hrep h hall (h.length - L) (by omega)) ⟨last, hlastSome, hws'⟩
+    · simp only [hall, Bool.false_eq_true, if_false]
+      have hle := trail_le hrep h
+      by_cases hl : h.length - trail hrep h < L
+      · simp only [hl, if_true, Option.isSome_none]
+        have : ¬ (trail hrep h + L ≤ h.length) := by omega
+        simp [this]
+      · simp only [hl, if_false]
+        rw [exactImpl_window cfg ext hrep nrep h _ _ _ hk1 hn]
+        have : trail hrep h + L ≤ h.length := by omega
+        have e2 : h.length - L - trail hrep h = h.length - trail hrep h - L := by omega
+        have e : h.length - trail hrep h - (h.length - trail hrep h - L) = L := by omega
+        simp [this, hL, e2, e]
+
+
+theorem ne_of_first_ws (w n : List Nat) (hw : ∃ c, w.head? = some c ∧ isWs c = true)
+    (hn : ∃ c, n.head? = some c ∧ isWs c = false) : (w == n) = false := by
+  cases hb : (w == n) with
+  | false => rfl
+  | true =>
+    rw [beq_iff_eq] at hb
+    obtain ⟨c, hc1, hc2⟩ := hw
+    obtain ⟨d, hd1, hd2⟩ := hn
+    rw [hb, hd1] at hc1
+    injection hc1 with e
+    rw [e, hc2] at hd2; cases hd2
+
+/-- **exact matching** succeeds exactly when the needle equals the whole normalized haystack text, where leading /
+    trailing haystack whitespace is ignored unless the needle itself starts / ends with whitespace -/
+theorem C05_exact (cfg : Cfg) (ext : Ext) (hrep nrep : Rep) (h : List Nat) (n0 : Nat) (ns : List Nat)
+    (hk1 : ¬ (hrep = .ascii ∧ nrep = .unicode)) (hn : (n0 :: ns).map (norm cfg nrep) = n0 :: ns) :
+    (exactMatch cfg ext hrep nrep h (n0 :: ns)).isSome =
+      (decide ((if isWs n0 then 0 else lead hrep h) + (if isWs ((n0 :: ns).getLast?.getD n0) then 0 else trail hrep h) ≤ h.length) &&
+        (((normHay cfg hrep h).drop (if isWs n0 then 0 else lead hrep h)).take
+          (h.length - (if isWs n0 then 0 else lead hrep h) - (if isWs ((n0 :: ns).getLast?.getD n0) then 0 else trail hrep h)) == n0 :: ns) &&
+        decide (h.length - (if isWs n0 then 0 else lead hrep h) - (if isWs ((n0 :: ns).getLast?.getD n0) then 0 else trail hrep h) = (n0 :: ns).length)) := by
+  have hw : wsOf hrep = wsRep hrep := by cases hrep <;> rfl
+  unfold exactMatch
+  simp only
+  have hlastSome : (n0 :: ns).getLast? = some ((n0 :: ns).getLast?.getD n0) := by
+    rw [List.getLast?_eq_some_getLast (by simp)]; rfl
+  generalize hlast : (n0 :: ns).getLast?.getD n0 = last at *
+  generalize hL : (n0 :: ns).length = L
+  have hLpos : 0 < L := by rw [← hL]; simp
+  rw [leadingWs_eq, trailingWs_eq]
+  by_cases hall : h.all (wsRep hrep) = true
+  · -- all whitespace: the code trims nothing
+    simp only [hall, if_true, ite_self, Nat.sub_zero]
+    have hlead : lead hrep h = h.length := by
+      unfold lead; rw [hw]; exact takeWhile_length_eq_iff_all _ h hall
+    have htr := trail_eq_length_of_all hrep h hall
+    rw [hlead, htr]
+    by_cases hemp : h.length = 0
+    · have : h = [] := List.length_eq_zero_iff.mp hemp
+      subst this
+      simp only [List.length_nil, if_true, ite_self, Option.isSome_none]
+      have : ¬ (0 = L) := by omega
+      simp [this]
+    · have hne : ¬ (0 = h.length) := by omega
+      simp only [hne, if_false]
+      rw [exactImpl_window cfg ext hrep nrep h _ _ _ hk1 hn]
+      simp only [Nat.sub_zero, List.drop_zero, hL]
+      by_cases hw0 : isWs n0 = true
+      · by_cases hwl : isWs last = true
+        · simp only [hw0, hwl, if_true, Nat.zero_add, Nat.zero_le, decide_true, Bool.true_and, Nat.sub_zero, List.drop_zero]
+          rw [Bool.and_comm]
+          congr 1
+          by_cases e : L = h.length <;> simp [e, eq_comm]
+        · have hwl' : isWs last = false := by simpa using hwl
+          simp only [hw0, hwl', if_true, Bool.false_eq_true, if_false, Nat.zero_add, Nat.le_refl, decide_true, Bool.true_and,
+            Nat.sub_zero, Nat.sub_self, List.take_zero, List.drop_zero]
+          have hf : (([] : List Nat) == n0 :: ns) = false := rfl
+          rw [hf, Bool.false_and]
+          by_cases e : L = h.length
+          · simp only [e, decide_true, Bool.true_and]
+            have hwin : (normHay cfg hrep h).take h.length = (normHay cfg hrep h).drop 0 := by
+              simp [normHay, List.take_of_length_le]
+            rw [hwin]
+            exact ne_of_last_ws _ _ (last_ws_of_all cfg hrep h hall 0 (by omega)) ⟨last, hlastSome, hwl'⟩
+          · simp [e]
+      · have hw0' : isWs n0 = false := by simpa using hw0
+        simp only [hw0', Bool.false_eq_true, if_false]
+        -- specification side is false: take 0 (or an impossible bound)
+        have hspec : (decide (h.length + (if isWs last = true then 0 else h.length) ≤ h.length) &&
+            (List.take (h.length - h.length - (if isWs last = true then 0 else h.length)) (List.drop h.length (normHay cfg hrep h)) == n0 :: ns) &&
+            decide (h.length - h.length - (if isWs last = true then 0 else h.length) = L)) = false := by
+          have : h.length - h.length - (if isWs last = true then 0 else h.length) = 0 := by omega
+          rw [this]
+          have hne' : ¬ (0 = L) := by omega
+          simp [hne']
+        rw [hspec]
+        by_cases e : L = h.length
+        · simp only [e, decide_true, Bool.true_and]
+          cases h with
+          | nil => simp at hemp
+          | cons c cs =>
+            simp only [List.all_cons, Bool.and_eq_true] at hall
+            have hc := ws_norm cfg hrep c hall.1
+            apply ne_of_first_ws
+            · exact ⟨norm cfg hrep c, by simp [normHay], hc⟩
+            · exact ⟨n0, rfl, hw0'⟩
+        · simp [e]
+  · -- some non-whitespace character: the helpers are the specification's counts
+    have hall' : h.all (wsRep hrep) = false := by simpa using hall
+    simp only [hall', Bool.false_eq_true, if_false]
+    have hsum : lead hrep h + trail hrep h < h.length := by
+      have := lead_add_trail_lt (wsRep hrep) h hall'
+      unfold lead trail; rw [hw]; exact this
+    have e1 : (if (!isWs n0) = true then lead hrep h else 0) = (if isWs n0 = true then 0 else lead hrep h) := by
+      cases isWs n0 <;> simp
+    have e2 : (if (!isWs last) = true then trail hrep h else 0) = (if isWs last = true then 0 else trail hrep h) := by
+      cases isWs last <;> simp
+    rw [e1, e2]
+    generalize hl : (if isWs n0 = true then 0 else lead hrep h) = l
+    generalize ht : (if isWs last = true then 0 else trail hrep h) = t
+    have hl' : l ≤ lead hrep h := by rw [← hl]; split <;> omega
+    have ht' : t ≤ trail hrep h := by rw [← ht]; split <;> omega
+    have hne : ¬ (t = h.length) := by omega
+    simp only [hne, if_false]
+    rw [exactImpl_window cfg ext hrep nrep h _ _ _ hk1 hn]
+    have hle : l + t ≤ h.length := by omega
+    have e3 : h.length - t - l = h.length - l - t := by omega
+    simp only [hle, decide_true, Bool.true_and, hL, e3]
+    rw [Bool.and_comm]
+    congr 1
+    by_cases e : L = h.length - l - t <;> simp [e, eq_comm]
+
 
 end NucleoVerif
